@@ -221,6 +221,14 @@ def subscript(ex, st: State, obj: V, sl, node) -> V:
             return V(uf('mat_row', Val, I, Val)(obj.t, as_int(idx)), VEC)
         return V(uf('arr_index', Val, Val, Val)(obj.t, idx.t), obj.ty)
     idx = ex.ev(st, sl)
+    if k == 'py' and obj.py[0] in ('specseq', 'dictview', 'range', 'enumerate', 'zip'):
+        n, arr, ety = seq_parts(ex, st, obj)
+        i = as_int(idx)
+        if not st.is_nonneg(i):
+            i = z3.If(i < 0, i + n, i)
+        v = V(z3.Select(arr, z3.simplify(i)), ety)
+        st.assume_type(v)
+        return v
     if k == 'list':
         if obj.items is not None and idx.lit is not None and isinstance(idx.lit, int):
             n = len(obj.items)
@@ -312,7 +320,12 @@ def slice_of(ex, st, obj: V, lo, hi, node) -> V:
 
 
 def contains(ex, st: State, container: V, item: V, node):
+    container = ex.unopt(st, container, node, 'in')
     k = container.kind
+    if k == 'py' and container.py[0] == 'specseq':
+        n, arr, _ = seq_parts(ex, st, container)
+        j = z3.Int(fresh_name('j'))
+        return z3.Exists([j], z3.And(j >= 0, j < n, z3.Select(arr, j) == ex.box(st, item)))
     if k == 'dict':
         return st.dict_has(container, item)
     if k == 'set':
